@@ -13,12 +13,25 @@ use air::verif_hooks::Event;
 use std::cell::RefCell;
 use std::collections::HashSet;
 
-/// number of trace states of the previous/current data that the run's stream folds left unclaimed
+/// number of trace states of the previous/current data that the run's stream folds dropped because
+/// the iteration of a value that WAS replayed into the new trace never started in this run (the
+/// recorded finding). Lore left unclaimed because its value has no position in the new trace at all
+/// is a different matter and is never attributed to the finding (see `unmapped_states`).
 pub fn dropped_states(out: &RunOutcome) -> u64 {
     out.events
         .iter()
         .map(|e| match e {
-            Event::FoldUnclaimedLore { prev_states, current_states, .. } => prev_states + current_states,
+            Event::FoldUnclaimedLoreByCause { unvisited_states, .. } => *unvisited_states,
+            _ => 0,
+        })
+        .sum()
+}
+
+pub fn unmapped_states(out: &RunOutcome) -> u64 {
+    out.events
+        .iter()
+        .map(|e| match e {
+            Event::FoldUnclaimedLoreByCause { unmapped_states, .. } => *unmapped_states,
             _ => 0,
         })
         .sum()
